@@ -7,10 +7,13 @@ godebug (
 	default=go1.22
 )
 
-require github.com/tmpim/casket v0.0.0
+require (
+	github.com/andybalholm/brotli v1.1.0
+	github.com/klauspost/compress v1.17.8
+	github.com/tmpim/casket v0.0.0
+)
 
 require (
-	github.com/andybalholm/brotli v1.1.0 // indirect
 	github.com/caddyserver/certmagic v0.20.0 // indirect
 	github.com/djherbis/buffer v1.2.0 // indirect
 	github.com/djherbis/nio/v3 v3.0.1 // indirect
@@ -23,7 +26,6 @@ require (
 	github.com/hashicorp/go-syslog v1.0.0 // indirect
 	github.com/inhies/go-bytesize v0.0.0-20220417184213-4913239db9cf // indirect
 	github.com/jimstudt/http-authentication v0.0.0-20140401203705-3eca13d6893a // indirect
-	github.com/klauspost/compress v1.17.8 // indirect
 	github.com/klauspost/cpuid v1.3.1 // indirect
 	github.com/klauspost/cpuid/v2 v2.2.7 // indirect
 	github.com/klauspost/pgzip v1.2.6 // indirect
